@@ -32,7 +32,9 @@ var boolVariants = []boolVariant{
 		return cty.NumberIntVal(2).LessThan(cty.NumberIntVal(1))
 	}},
 	{"Not-result", func(b bool) cty.Value { return cty.BoolVal(!b).Not() }},
-	{"Equals-result", func(b bool) cty.Value { return cty.StringVal("a").Equals(cty.StringVal(map[bool]string{true: "a", false: "b"}[b])) }},
+	{"Equals-result", func(b bool) cty.Value {
+		return cty.StringVal("a").Equals(cty.StringVal(map[bool]string{true: "a", false: "b"}[b]))
+	}},
 }
 
 func runTruthTables(c *core.Ctx, base int64) {
